@@ -196,6 +196,10 @@ func init() {
 			p.Clauses = keep
 			return true
 		},
+		"./2": func(m *Machine, a []Term, _ *frame) bool {
+			Unsupported("a list as a goal (consult shorthand)")
+			return false
+		},
 		"abolish/1": func(m *Machine, a []Term, _ *frame) bool { return m.abolish(a[0]) },
 		"clause/2":  func(m *Machine, a []Term, cont *frame) bool { return m.clauseOrRetract(a[0], a[1], false, cont) },
 	}
